@@ -132,6 +132,10 @@ def check(ctx):
     # occurrences count: no set / dict keyed by the species stands between a reactant list and the terms built from it
     from ..multiplicity import rule as multiplicity_rule
     multiplicity_rule(ctx, "R10", ['ode'], "the right-hand side")
+    # each rendering is computed from the network of that call: the renderer keeps no memo between two renderings (shared with C17.R7)
+    from .c17 import stateless_renderer
+    from ..pymodel import package as _package
+    stateless_renderer(ctx, _package(ctx.tree), "R11")
 
 
 def reaction_sites(ctx, m, r_loss="R2", r_gain="R3"):
